@@ -72,21 +72,29 @@ def uiOp (j : Json) : Except String Res := do
     let mut panicked := false
     for k in keys do
       if panicked then break
+      -- a terminal resize changes no state the model holds (frames are judged by the predicate)
+      if "RESIZE ".toList.isPrefixOf k then
+        snaps := snaps.push (snapshot s)
+        continue
       -- the harness sends the UTF-8 bytes of the token one by one
       let bytes := (String.ofList k).toUTF8.toList.map (·.toNat)
       match Ui.run w s bytes with
       | .ok s' => s := s'; snaps := snaps.push (snapshot s)
       | .error _ => panicked := true
     -- predicates on the implementation's output
-    let heights : List Nat := match j.getObjVal? "frameheights" with
-      | .ok (Json.arr a) => a.toList.map fun v => (v.getNat?).toOption.getD 0
+    -- (lines of the frame, terminal height in force when it was drawn); the property speaks of
+    -- terminals of at least two rows (a status line on a one-row terminal yields two lines)
+    let heights : List (Nat × Nat) := match j.getObjVal? "frameheights" with
+      | .ok (Json.arr a) => a.toList.map fun v => match v with
+        | Json.arr p => (((p[0]?.getD Json.null).getNat?).toOption.getD 0, ((p[1]?.getD Json.null).getNat?).toOption.getD 0)
+        | _ => ((v.getNat?).toOption.getD 0, height)
       | _ => []
     let frames : List Str := match j.getObjVal? "frames_sample" with
       | .ok (Json.arr a) => a.toList.filterMap fun v => match v with | Json.str s => some s.toList | _ => none
       | _ => []
     let notWedged := (impl.getObjVal? "wedged").toOption.isNone
     pure { model := if panicked then panicJson else Json.mkObj [("snaps", Json.arr snaps)],
-           preds := [("frames_have_terminal_height", heights.all (· == height)),
+           preds := [("frames_have_terminal_height", heights.all (fun p => p.2 < 2 || p.1 == p.2)),
                      ("frames_safe", frames.all Safe.safe),
                      ("frames_neutral", frames.all Cells.neutralAtBreaks),
                      ("interface_not_wedged", notWedged)],
